@@ -363,6 +363,8 @@ fn gen(rng: &mut Rng) -> String {
         let t = *rng.pick(&[
             "1/2 3/4", "12/34 5/678 9/0 x", "1/2", "a1/2b3/4c", "fi ffl 1/2 3/4 ff", "1/2 3/4 5/6 7/8 9/10 11/12",
             "x 1/2", "1/2/3/4", "/1/ 2/ /3", "ffi fj ffl ft", "A\u{301}\u{300}V\u{327}A",
+            // variation selectors after the dotted circle and after ordinary letters, repeated in one run
+            "\u{25cc}\u{fe0e} \u{25cc}\u{fe0e}", "\u{25cc} a\u{fe0e}\u{25cc}\u{fe0f} \u{25cc}\u{fe0e}", "a\u{fe0f}a\u{fe0e}\u{25cc}\u{fe00}\u{25cc}",
         ]);
         let bits: u64 = 0x3f | (1 << 16) | (1 << 22) | (1 << 11) | (rng.next() & 0xffff_0000);
         let cps: Vec<String> = t.chars().map(|c| format!("{:x}", c as u32)).collect();
@@ -376,7 +378,7 @@ fn gen(rng: &mut Rng) -> String {
     let cps: Vec<String> = (0..n)
         .map(|_| {
             let cp = match rng.below(12) {
-                0 => *rng.pick(&[0x200du32, 0x200c, 0xfe0f, 0xfe00, 0x25cc, 0x34f, 0x2060, 0xfffd, 0x10ffff, 0x0, 0xe0100]),
+                0 => *rng.pick(&[0x200du32, 0x200c, 0xfe0f, 0xfe0e, 0xfe00, 0x25cc, 0x25cc, 0x34f, 0x2060, 0xfffd, 0x10ffff, 0x0, 0xe0100]),
                 1 => *rng.pick(LATIN),
                 _ => shift_script(*rng.pick(alpha), fscript),
             };
